@@ -607,9 +607,12 @@ pub fn run_check<C: Check>(check: C, args: &Args) -> i32 {
         }
     }
     done.store(true, Ordering::Relaxed);
+    let mut workers_panicked = 0;
     if hang.is_none() {
         for h in handles {
-            let _ = h.join();
+            if h.join().is_err() {
+                workers_panicked += 1;
+            }
         }
     }
 
@@ -633,6 +636,16 @@ pub fn run_check<C: Check>(check: C, args: &Args) -> i32 {
 
     if let Some(e) = shared.internal_error.lock().unwrap().clone() {
         inconclusive = Some(format!("internal error: {}", e));
+    }
+    {
+        let generated = shared.evaluations.load(Ordering::Relaxed);
+        if hang.is_none() && shared.failure.lock().unwrap().is_none() && inconclusive.is_none() && generated < total_cases {
+            inconclusive = Some(format!("internal error: only {} of the {} requested cases were executed", generated, total_cases));
+        }
+    }
+    if workers_panicked > 0 {
+        // a worker died outside a case (e.g. while building its strategy): whatever it was meant to run did not run
+        inconclusive = Some(format!("internal error: {} worker thread(s) panicked outside a case; the requested cases were not all executed", workers_panicked));
     }
 
     if let Some((v, case_v)) = shared.failure.lock().unwrap().clone() {
